@@ -6,6 +6,7 @@ CONSTANTS
   ValidateOnPrint = FALSE
   EagerType = TRUE
   MdVariant = "code"
+  HeaderBeforeAssign = FALSE
   AllocaRefresh = "fields"
   MaxCalls = 5
   Groups = {"globals", "aliases", "ifuncs"}
